@@ -199,3 +199,16 @@ chk("C20", "exploration",
     "a timeout is inconclusive. Audit events of the parser's own activity (compile/exec/getattr, imports of sympy/stdlib parsing "
     "modules, source lookups for tracebacks) are allowed.",
     "grammar-based generation + printer round trip + token mutation (Hypothesis) and coverage-guided fuzzing (atheris)", "DESIGN.md §3 C20")
+chk("C11", "exploration",
+    "Deterministic grid of 16 persistence routes (pickle protocols 2-5, nested containers, copy, deepcopy, .copy(), Unit.copy "
+    "deep/shallow, Unit pickle/deepcopy, savetxt->loadtxt, Unit(str(u)), registry to_json->from_json loaded twice with an edit in "
+    "between) x 3 registry kinds (default; custom with added, prefixable, offset symbols; custom with modified default symbols and "
+    "a cgs unit system) x 29 special units (angles, offset/delta temperatures, logarithmic, lat/lon, code units, EM, mol) and "
+    "Hypothesis cases with generated compound units, dtypes, scalar/array, 1-4 follow-up steps out of 44 in either order. "
+    "Immediately after restore: same bytes/dtype/shape/class, equal unit and str, same registry resolution of a probe set incl. "
+    "user symbols; afterwards a behavioural differential against a never-persisted twin (same value, equal unit, or same "
+    "exception class) covering angle-aware trig, temperature and logarithmic guards, unit-system conversion incl. the registry's "
+    "own default, conversion to custom units, arithmetic with the original, reductions.",
+    "HDF5 not exercised (h5py absent); pickle protocols 0/1 are refused loudly by SymPy itself and are not exercised; savetxt with "
+    "a custom registry is not exercised (the text format cannot carry a registry). Derived results are compared at rel 1e-13.",
+    "Hypothesis object x route x follow-up program generation; behavioural differential original vs restored", "DESIGN.md §3 C11")
